@@ -16,10 +16,18 @@ type Chooser struct {
 	pos       int
 	Rec       []int
 	Log       func(v int) // optional: called for every value drawn (crash forensics)
+	// lazyFrom > 0: from that draw on every value is 0, the most benign choice (FIFO delivery,
+	// no fault, nothing released early): one run in ten ends with such a "lazy kernel" tail,
+	// which is the part of the space that minimisation by truncation lives in
+	lazyFrom int
 }
 
 func NewChooser(seed uint64) *Chooser {
-	return &Chooser{rng: rand.New(rand.NewPCG(seed, 0x9e3779b97f4a7c15))}
+	c := &Chooser{rng: rand.New(rand.NewPCG(seed, 0x9e3779b97f4a7c15))}
+	if c.rng.IntN(10) == 0 {
+		c.lazyFrom = 20 + c.rng.IntN(400)
+	}
+	return c
 }
 
 func NewReplayChooser(choices []int) *Chooser {
@@ -40,6 +48,8 @@ func (c *Chooser) Intn(n int) int {
 			}
 			v %= n
 		}
+	} else if c.lazyFrom > 0 && c.pos >= c.lazyFrom {
+		v = 0
 	} else {
 		v = c.rng.IntN(n)
 	}
